@@ -80,7 +80,7 @@ impl Property for C11 {
             ctx.label("fault_free_case");
         }
         let budget = cfg.bytes_per_tick;
-        let mut w = World::new_partial(cfg, Oracles { content: true, exclude_clients: if hostile { vec![0] } else { vec![] }, ..Default::default() }, joined);
+        let mut w = World::new_partial(cfg, Oracles { content: true, budget: true, exclude_clients: if hostile { vec![0] } else { vec![] }, ..Default::default() }, joined);
         let mut bserial: u32 = 0;
         let mut extra = |w: &mut World, ctx: &mut Ctx| -> Outcome {
             let which = ctx.src.weighted(&[10, 6, 4, 3, if hostile { 8 } else { 0 }, 3]);
